@@ -63,9 +63,6 @@ def C11_batching_independent_full : Prop :=
 def dupOpOneBlock : List Block := [⟨2, [.operatorAdded 5 1 2, .operatorAdded 5 1 3]⟩]
 def dupOpTwoBlocks : List Block := [⟨1, [.operatorAdded 5 1 2]⟩, ⟨2, [.operatorAdded 5 1 3]⟩]
 
-theorem init_selfInv (me : Nat) : SelfInv me [] init.reg :=
-  ⟨by simp [init], by simp [init], by simp [init], by simp [init, hasOp], by simp [init, hasOp]⟩
-
 /-- REFUTED on this tree: `SaveOperatorData` checks for an existing operator OUTSIDE the block transaction, so a
     second OperatorAdded with the same id overwrites the first one inside one block and is ignored across blocks
     (replayed on the real handler: corpus/C11/registry_dup_operator_id.ops). -/
